@@ -107,7 +107,7 @@ macro_rules! segment_h {
         });
     };
 }
-//@ prop=C10 tier=quick cost=60 fns="fragmented::build_media_segment,build_moof_with_offset,build_traf,build_trun,build_mfhd,build_tfhd,build_tfdt" bound="1 sample (2 bytes), all u64 pts/dts < 2^63 with |pts-dts| < 2^31, any sync flag, seq, base" unwind=8 covers_optional="equal DTS" timeout=900
+//@ prop=C10 tier=quick cost=276 fns="fragmented::build_media_segment,build_moof_with_offset,build_traf,build_trun,build_mfhd,build_tfhd,build_tfdt" bound="1 sample (2 bytes), all u64 pts/dts < 2^63 with |pts-dts| < 2^31, any sync flag, seq, base" unwind=8 covers_optional="equal DTS" timeout=900
 segment_h!(c10_segment_1, 1, 114);
 //@ prop=C10 tier=thorough cost=600 fns="fragmented::build_media_segment,build_moof_with_offset,build_traf,build_trun" bound="2 samples (2 and 0 bytes), all non-decreasing u64 dts with 32-bit gaps, any pts/sync/seq/base" unwind=8 mem=22 timeout=1400
 segment_h!(c10_segment_2, 2, 130);
@@ -171,14 +171,14 @@ macro_rules! write_step_h {
         });
     };
 }
-//@ prop=C10 tier=quick cost=60 fns="fragmented::FragmentedMuxer::write_video" bound="empty queue, any last_dts (incl. None), any pts/dts/sync" unwind=8
+//@ prop=C10 tier=quick cost=7 fns="fragmented::FragmentedMuxer::write_video" bound="empty queue, any last_dts (incl. None), any pts/dts/sync" unwind=8
 write_step_h!(c10_write_step_k0, 0);
-//@ prop=C10 tier=quick cost=60 fns="fragmented::FragmentedMuxer::write_video" bound="1 queued sample, any state scalars, any pts/dts/sync" unwind=8
+//@ prop=C10 tier=quick cost=10 fns="fragmented::FragmentedMuxer::write_video" bound="1 queued sample, any state scalars, any pts/dts/sync" unwind=8
 write_step_h!(c10_write_step_k1, 1);
-//@ prop=C10 tier=thorough cost=90 fns="fragmented::FragmentedMuxer::write_video" bound="2 queued samples, any state scalars, any pts/dts/sync" unwind=8
+//@ prop=C10 tier=thorough cost=12 fns="fragmented::FragmentedMuxer::write_video" bound="2 queued samples, any state scalars, any pts/dts/sync" unwind=8
 write_step_h!(c10_write_step_k2, 2);
 
-//@ prop=C10 tier=quick cost=30 fns="fragmented::FragmentedMuxer::flush_segment,ready_to_flush,current_fragment_duration_ms" bound="empty queue, any state scalars" unwind=8
+//@ prop=C10 tier=quick cost=7 fns="fragmented::FragmentedMuxer::flush_segment,ready_to_flush,current_fragment_duration_ms" bound="empty queue, any state scalars" unwind=8
 h!(c10_flush_empty, 8, {
     let mut m = state::<0>([], kani::any(), kani::any(), kani::any(), 90000, kani::any());
     let before = fh::digest(&m);
@@ -257,7 +257,7 @@ h!(c11_base_monotone_k2, 8, {
 });
 
 // ---- readiness predicate -------------------------------------------------------------
-//@ prop=C10 tier=quick cost=60 fns="fragmented::FragmentedMuxer::ready_to_flush,current_fragment_duration_ms" bound="2 queued samples with span < 2^22 ticks (46 s at 90 kHz; the 64-bit divider does not finish beyond), any target duration, timescale 90000" unwind=8
+//@ prop=C10 tier=quick cost=302 fns="fragmented::FragmentedMuxer::ready_to_flush,current_fragment_duration_ms" bound="2 queued samples with span < 2^22 ticks (46 s at 90 kHz; the 64-bit divider does not finish beyond), any target duration, timescale 90000" unwind=8
 h!(c10_ready_k2, 8, {
     let dts: [u64; 2] = kani::any();
     kani::assume(dts[0] <= dts[1] && dts[1] - dts[0] < (1 << 22));
@@ -274,7 +274,7 @@ h!(c10_ready_k2, 8, {
     crate::vcover!(!m.ready_to_flush(), "not ready");
     core::mem::forget(m);
 });
-//@ prop=C10 tier=quick cost=30 fns="fragmented::FragmentedMuxer::ready_to_flush,current_fragment_duration_ms" bound="1 queued sample, any scalars" unwind=8
+//@ prop=C10 tier=quick cost=5 fns="fragmented::FragmentedMuxer::ready_to_flush,current_fragment_duration_ms" bound="1 queued sample, any scalars" unwind=8
 h!(c10_ready_k1, 8, {
     let m = state::<1>([kani::any()], kani::any(), kani::any(), kani::any(), kani::any(), kani::any());
     assert!(!m.ready_to_flush() && m.current_fragment_duration_ms() == 0, "a lone sample is never ready");
@@ -283,7 +283,7 @@ h!(c10_ready_k1, 8, {
 });
 
 // ---- init segment: cached, stable, state-neutral ----------------------------------------
-//@ prop=C11 tier=quick cost=300 fns="fragmented::FragmentedMuxer::init_segment,build_moov_fmp4,build_trak_fmp4,build_stsd_fmp4" bound="H.264 config (SPS 4 / PPS 2 symbolic bytes, any dims), 1 queued sample, any scalars: two calls" unwind=640 timeout=1500 mem=20
+//@ prop=C11 tier=quick cost=203 fns="fragmented::FragmentedMuxer::init_segment,build_moov_fmp4,build_trak_fmp4,build_stsd_fmp4" bound="H.264 config (SPS 4 / PPS 2 symbolic bytes, any dims), 1 queued sample, any scalars: two calls" unwind=640 timeout=1500 mem=20
 h!(c11_init_stable, 640, {
     let mut c = cfg(90000, 2000);
     c.width = kani::any();
